@@ -10,6 +10,7 @@ from ..core import AnalysisError, FUNC, call_attr, calls_in, const, dotted, is_c
 from .c01 import field_rules
 
 EXPLANATION = [
+    'C18.decorator-order: every PDU class above HCI that is a dataclass and is registered by a decorator is made a dataclass first, so the registration decorator builds its field table from the declared fields.',
     'C18.avdtp-fragments: fragmentation of an AVDTP signalling message (packet count = ceil(len / fragment size), header sizes, slices) as decided by C19.avdtp-single: a message whose length is an exact multiple of the fragment size announces the right number of packets.',
     'C18.defined-at-return: in every function of the codec modules a local that is returned has been assigned on every path to that return (definite-assignment walk; names bound in loops, with-items, handlers excluded): no parser falls through a `match`/`if` chain into returning the variable of another arm.',
     'C18.enum-distinct: every enumeration of wire codes in the codec modules gives distinct members distinct values (specified aliases listed by name): a member that shares a code with another one cannot round-trip.',
@@ -209,7 +210,36 @@ def stride(ctx):
                     fn = next((x for x in _anc(comp) if isinstance(x, FUNC)), None)
                     # stride > item size is a record layout (one field per record); stride < size overlaps
                     R.check(coef is not None and coef >= size, rule, f'{p.qual_of(fn) if fn else mod} | {norm(c)}', f'stride {coef} >= calcsize({const(c.args[0])!r}) = {size}', f'items of {size} bytes are read at offsets advancing by {coef}: entries overlap / are misaligned with how they are written', m.rel + f':{c.lineno}')
-    R.check(n >= 1, rule, 'census', f'{n} indexed unpack_from comprehension(s) analysed', 'no indexed unpack_from comprehension found (extractor lost coverage)')
+    # the same for items cut out with a slice: data[L(i) : U(i)] for i in range(start, stop, step) -- the distance between
+    # two consecutive items (coefficient of i in L, times the step) must equal the width of an item (U - L)
+    from ..sym import lin
+    m_ = 0
+    for mod in CODEC_MODS + ['bumble.hci']:
+        m = p.modules.get(mod)
+        if m is None:
+            continue
+        for comp in ast.walk(m.tree):
+            if not isinstance(comp, (ast.ListComp, ast.GeneratorExp)):
+                continue
+            gens = comp.generators
+            if len(gens) != 1 or not (isinstance(gens[0].iter, ast.Call) and call_attr(gens[0].iter) == 'range') or not isinstance(gens[0].target, ast.Name):
+                continue
+            i = gens[0].target.id
+            rargs = gens[0].iter.args
+            step = lin(rargs[2]) if len(rargs) == 3 else {'': 1}
+            for sl in [x for x in ast.walk(comp.elt) if isinstance(x, ast.Subscript) and isinstance(x.slice, ast.Slice) and x.slice.lower is not None and x.slice.upper is not None]:
+                lo, up = lin(sl.slice.lower), lin(sl.slice.upper)
+                if lo is None or up is None or step is None or i not in lo:
+                    continue
+                ci_ = lo.get(i, 0)
+                width = {k: up.get(k, 0) - lo.get(k, 0) for k in set(up) | set(lo)}
+                width = {k: v for k, v in width.items() if v}
+                stride = {k: v * ci_ for k, v in step.items() if v * ci_}
+                m_ += 1
+                fn = next((x for x in _anc(comp) if isinstance(x, FUNC)), None)
+                R.check(stride == width, rule, f'{p.qual_of(fn) if fn else mod} | {norm(sl)}', f'items of width {width} are {stride} apart',
+                        f'items of width {width} are cut out at positions advancing by {stride}: consecutive items overlap (or leave gaps), so a list with more than one item does not parse back to the items that were written', m.rel + f':{sl.lineno}')
+    R.check(n >= 1 and m_ >= 1, rule, 'census', f'{n} indexed unpack_from comprehension(s) and {m_} sliced comprehension(s) analysed', 'no indexed comprehension found (extractor lost coverage)')
 
 
 def _coef(e, i):
@@ -457,6 +487,20 @@ def generic(ctx):
             ok = slice_parts(v2) == ('data', 'offset + 2', f'offset + 2 + {wire[0]}')
         R.check(ok, rule, 'bumble.att.ATT_Read_Multiple_Variable_Response._parse_length_value_tuples', 'tuple = (Length field of the wire, data[offset+2 : offset+2+Length])',
                 'the parsed tuple does not carry the Length field as received (e.g. the number of bytes present instead): a truncated last value no longer parses back to the value that was built, and re-serialises differently', p.loc(pf))
+    # A2DP vendor codec information: vendor id(4) codec id(2) value; a class registered for (vendor, codec) parses and
+    # serialises the value only, so the factory hands it the part after the 6-byte header
+    mc = p.find('bumble.a2dp.MediaCodecInformation.create')
+    vs = p.cls('bumble.a2dp.VendorSpecificMediaCodecInformation')
+    if mc is None or vs is None:
+        R.bad(rule, 'bumble.a2dp.MediaCodecInformation.create', 'anchor missing')
+    else:
+        vnames = {dotted(n.targets[0]) for n in walk_local(mc) if isinstance(n, ast.Assign) and 'VendorSpecificMediaCodecInformation.from_bytes' in norm(n.value)}
+        reg = [c for c in calls_in(mc) if call_attr(c) == 'from_bytes' and dotted(c.func.value) not in ('SbcMediaCodecInformation', 'AacMediaCodecInformation', 'VendorSpecificMediaCodecInformation')]
+        ok = bool(vnames) and bool(reg) and all(len(c.args) == 1 and any(norm(c.args[0]) == f'{v}.value' for v in vnames) for c in reg)
+        R.check(ok, rule, 'bumble.a2dp.MediaCodecInformation.create | vendor codec value', 'a registered vendor codec class is given the value after the vendor / codec id header',
+                f'a registered vendor codec class is given `{[norm(c.args[0]) for c in reg]}` instead of the value that follows the 6-byte vendor / codec header: it decodes header bytes as codec parameters, so vendor capabilities (Opus) do not parse back to what was built', p.loc(mc))
+        vfb = vs.methods.get('from_bytes')
+        R.check(vfb is not None and 'data[6:]' in norm(vfb), rule, 'bumble.a2dp.VendorSpecificMediaCodecInformation.from_bytes', 'value = data[6:]', 'vendor header size changed', p.loc(vfb) if vfb else '')
     # ATT generic
     fn = p.find('bumble.att.ATT_PDU.from_bytes')
     if fn is not None:
@@ -730,7 +774,13 @@ def avdtp_fragments(ctx):
     c19.avdtp_single(ctx, rule='C18.avdtp-fragments')
 
 
+def decorator_order_rule(ctx):
+    from .. import generic_rules as g
+    g.decorator_order(ctx, 'C18.decorator-order', ['bumble.l2cap', 'bumble.att', 'bumble.smp', 'bumble.sdp', 'bumble.rfcomm', 'bumble.avdtp', 'bumble.avctp', 'bumble.avrcp', 'bumble.avc', 'bumble.a2dp', 'bumble.core'])
+
+
 RULES = [
+    ('C18.decorator-order', decorator_order_rule),
     ('C18.avdtp-fragments', avdtp_fragments),
     ('C18.sdp-depth', sdp_depth),
     ('C18.length-prefix', length_prefix),
